@@ -88,7 +88,7 @@ Definition dec_otoks (v : val) : option (list otok) :=
         end) (Some []) l
   | _ => None
   end.
-Definition probe_sets : list (list N) := [[]; [10; 11; 100; 101; 200]; [12; 100]].
+Definition probe_sets : list (list N) := [[]; [10; 11; 100; 101; 105; 200; 305]; [12; 100; 305]].
 Definition same_setb (a b : list N) : bool :=
   forallb (fun x => mem x b) a && forallb (fun x => mem x a) b.
 Definition dec_nl (v : val) : option (list N) :=
